@@ -8,6 +8,7 @@ import (
 	"hash/crc32"
 	"hash/crc64"
 	"math"
+	"math/bits"
 	"os"
 	"os/exec"
 	"path/filepath"
@@ -118,6 +119,55 @@ func extremeSeqs(seed uint64, n int) []gen.Seq {
 	return out
 }
 
+// hostilePrelude calls every test with inadmissible inputs (nil, empty, one bit, one short of the minimum,
+// and one DFT input beyond 2^27 bits) and swallows whatever happens; what such calls do is outside the
+// property, but the admissible calls that follow in the same process must still return.
+func hostilePrelude(c *ev.Ctx) {
+	for _, sp := range allSpecs(1<<20, true) {
+		sp := sp
+		for _, n := range []int{0, 1, sp.minLen() - 1, 7} {
+			if n < 0 || n >= sp.minLen() {
+				continue
+			}
+			b := make([]bool, n)
+			var d []byte
+			if n >= 8 {
+				d = make([]byte, n/8)
+			}
+			guard(func() { libCall(sp, b, d) })
+			guard(func() { libCall(sp, nil, nil) })
+			c.Count("hostile_inadmissible_calls", 2)
+		}
+	}
+	if !c.Lite() && bits.UintSize == 64 {
+		huge := make([]bool, 1<<27+1) // one bit more than the spectral test admits
+		guard(func() { R.DiscreteFourierTransformTest(huge) })
+		c.Count("hostile_inadmissible_calls", 1)
+	}
+	// every test must still answer on an admissible input, within a generous time
+	bitsv := gen.Seq{Fam: "slight", N: 8968, Seed: 99}.Bits()
+	bools, data := gen.Bools(bitsv), gen.Pack(bitsv)
+	done := make(chan string, 1)
+	go func() {
+		for _, sp := range allSpecs(len(bitsv), false) {
+			sp := sp
+			if p, m := guard(func() { libCall(sp, bools, data) }); p {
+				done <- sp.String() + ": " + m
+				return
+			}
+		}
+		done <- ""
+	}()
+	select {
+	case msg := <-done:
+		if msg != "" {
+			c.Violation("after-hostile-calls:panic", "an admissible call panicked after inadmissible calls had been made (and recovered) in the same process: "+clip(msg, 600), "wellformed", nil)
+		}
+	case <-time.After(5 * time.Minute):
+		c.Violation("after-hostile-calls:no-return", "after inadmissible calls (recovered) an admissible call did not return within 5 minutes (normal: milliseconds)", "wellformed", nil)
+	}
+}
+
 func runC16(c *ev.Ctx) {
 	c.Rule = "each case = (extreme or generic sequence, test, parameter): every returned value must be finite and in [0,1] (+-1e-9), two-sided tests must satisfy P = 2*min(Q,1-Q) (1e-9), chi-square tests Q == P, and every registry runner's Pass flag must equal (P >= 0.01) (min(P,P2) for overlapping); a panic on an admissible input is a violation. 26 extreme families (constants, 0xAA/0x55/0x33/0x0F/00FF patterns, single transition / single one at start, middle, end, sparse, period-3/7 bits, heavy bias both ways, sticky and anti-sticky Markov, LFSR, one long run, balanced, PRNG) x lengths from 100 bits to 10^6 (10^7 thorough). non-trivial = every (sequence, test, parameter) on an extreme family, or a generic one with P in (1e-9,1-1e-9); distinct = distinct descriptors"
 	c.Assumptions = []string{"predicates only; no reference values involved"}
@@ -141,6 +191,7 @@ func runC16(c *ev.Ctx) {
 			works = append(works, work{sq})
 		}
 	}
+	hostilePrelude(c)
 	passBoundarySweep(c, seed)
 	generalPassSweep(c, seed)
 	passNeedleSearch(c, seed)
@@ -1016,6 +1067,64 @@ func mixedLengthBatch(seed uint64, sizes []int, rounds int) c18Result {
 
 var mu18 sync.Mutex
 
+// windowViews: the same data handed over as a view buf[off:off+n] at every offset 1..17 of a larger
+// backing array (bit slices and byte slices) must give exactly what a freshly allocated copy gives:
+// results may not depend on where a slice starts in memory or on what lies around it.
+func windowViews(c *ev.Ctx, seed uint64) {
+	lens := []int{128, 1000, 8968}
+	var n int64
+	for _, nbits := range lens {
+		if nbits%8 != 0 {
+			nbits += 8 - nbits%8
+		}
+		bits := gen.Seq{Fam: "slight", N: nbits, Seed: gen.Mix(seed, 1899, uint64(nbits))}.Bits()
+		fresh := gen.Bools(bits)
+		freshD := gen.Pack(bits)
+		specs := allSpecs(nbits, false)
+		want := map[string][]float64{}
+		for _, sp := range specs {
+			sp := sp
+			guard(func() { want[sp.String()] = libCall(sp, fresh, freshD) })
+		}
+		for off := 1; off <= 17; off++ {
+			if c.Lite() && off%4 != 1 {
+				continue
+			}
+			// surrounding memory is filled with the complement pattern so that reading outside the view shows
+			bigB := make([]bool, nbits+64)
+			for i := range bigB {
+				bigB[i] = i%3 == 0
+			}
+			copy(bigB[off:], fresh)
+			bigD := make([]byte, len(freshD)+64)
+			for i := range bigD {
+				bigD[i] = 0xA5
+			}
+			copy(bigD[off:], freshD)
+			vb := bigB[off : off+nbits : off+nbits]
+			vd := bigD[off : off+len(freshD) : off+len(freshD)]
+			if off%2 == 0 { // also views with spare capacity behind them
+				vb = bigB[off : off+nbits]
+				vd = bigD[off : off+len(freshD)]
+			}
+			for _, sp := range specs {
+				sp := sp
+				var got []float64
+				if p, m := guard(func() { got = libCall(sp, vb, vd) }); p {
+					c.Violation(fmt.Sprintf("view:%s:off=%d:panic", sp.String(), off), m, "c18", off)
+					continue
+				}
+				n++
+				c.Eval(ev.HashStr(fmt.Sprintf("view|%d|%d|%s", nbits, off, sp.String())), true)
+				if !sameVec(got, want[sp.String()]) {
+					c.Violation(fmt.Sprintf("view:%s:n=%d:off=%d", sp.String(), nbits, off), fmt.Sprintf("%s on the view buf[%d:%d] of a larger array returned %v, on a fresh copy of the same data %v", sp.String(), off, off+nbits, got, want[sp.String()]), "c18", off)
+				}
+			}
+		}
+	}
+	c.Count("window_view_calls_compared_with_fresh_copy", n)
+}
+
 // crcPartner returns a copy of a that differs from it but has the same checksum under a reflected CRC
 // with the given (reflected) polynomial constant of `bits` bits: the generator, written in processing
 // order, is XOR-ed in at byte offset off.
@@ -1327,6 +1436,7 @@ func runC18(c *ev.Ctx) {
 		c.Count("soak_repeated_calls", soak)
 	}
 	weakKeyPairs(c, seed)
+	windowViews(c, seed)
 	// (c) concurrency in this (plain) binary
 	sizes := []int{2500, 12500}
 	perG := 6
